@@ -8,7 +8,7 @@ from .common import call
 
 PROP = "C19"
 LEVEL = "exploration"
-CASES = {"quick": 2400, "thorough": 120000}
+CASES = {"quick": 2400, "thorough": 1200000}
 SHARDS = {"quick": 8, "thorough": 16}
 ANCHORS = ["discovery.py:discover", "discovery.py:_get_uri_prefix_to_luids"]
 DECIDING = ["discover"]
